@@ -44,6 +44,7 @@ Record PlatformOK (p : platform) : Prop := {
   ok_degree_pow2 : is_pow2 (p_degree p) = true;
   ok_degree_le : p_degree p <= p_max_degree p;
   ok_max_le : p_max_degree p <= 16;
+  ok_max_pow2 : is_pow2 (p_max_degree p) = true;
   ok_cip : forall cv block bl ctr fl, p_compress_in_place p cv block bl ctr fl = compress_in_place cv block bl ctr fl;
   ok_cx : forall cv block bl ctr fl, p_compress_xof p cv block bl ctr fl = compress_xof cv block bl ctr fl;
   ok_hm : forall inputs key ctr incr fl fs fe cap,
